@@ -1,6 +1,6 @@
 CONSTANT Tier = "quick"
-CONSTANT Fams = {"bud"}
+CONSTANT PolicyCeilingApplies = FALSE
+CONSTANT RedelegatorMustBeLive = FALSE
 SPECIFICATION Spec
-INVARIANT Laws
 INVARIANT Emit
 CHECK_DEADLOCK FALSE
